@@ -269,9 +269,13 @@ def _decision_table(chk, facts):
     loc = facts.loc_of(fn)
     # the closure over (f_mut, var) whose body is a match on env.get_var(..)
     target = None
-    for n in walk(fn["body"]):
-        if n.get("k") == "match" and ".get_var(" in src(n["e"]):
-            target = n
+    from .common import local_helpers
+    for f_ in [fn] + local_helpers(syn, fn):      # the decision may live in a private helper of the module
+        for n in walk(f_["body"]):
+            if n.get("k") == "match" and ".get_var(" in src(n["e"]):
+                target = n
+                break
+        if target is not None:
             break
     if target is None:
         raise AnchorError("check_iden_mut: no `match env.get_var(..)`")
